@@ -377,3 +377,35 @@ Definition distribute_once (e : Z * Z) (dfn dist : Z) : Z * Z := (fst e * (16 * 
 Fixpoint distribute_times (k : nat) (e : Z * Z) (dfn dist : Z) : Z * Z :=
   match k with O => e | S k' => distribute_times k' (distribute_once e dfn dist) dfn dist end.
 Definition f64_max_bound : Z := 2 ^ 1024.      (* f64::MAX < 2^1024 *)
+
+(* ---------- rosomaxa/src/algorithms/math/statistics.rs :: get_mean_slice, get_variance_mean, get_variance, get_stdev over IEEE
+   binary64 (Coq primitive floats), and the route-derived part of vrp-core/src/solver/heuristic.rs :: RosomaxaSolution::on_init for a
+   solution without routes (finding C19-F2, fixed in /repo by 7897eb0) ---------- *)
+From Coq Require Import Floats.
+Definition f_zero : float := 0%float.
+Definition f_len (l : list float) : float := fold_left (fun a _ => (a + 1)%float) l 0%float.       (* values.len() as Float *)
+(* get_mean_slice; get_mean_iter agrees with it on the empty sequence (count == 0 -> 0.) *)
+Definition f_mean_slice (l : list float) : float :=
+  match l with [] => 0%float | _ => (fold_left PrimFloat.add l 0 / f_len l)%float end.
+(* the body of get_variance_mean behind the guard = the whole function before commit 7897eb0 (kept: seeded mutant C19-9) *)
+Definition f_variance_prefix (l : list float) : float :=
+  let mean := f_mean_slice l in
+  let acc := fold_left (fun acc v => let dev := (v - mean)%float in ((fst acc + dev * dev)%float, (snd acc + dev)%float)) l (0%float, 0%float) in
+  ((fst acc - (snd acc * snd acc / f_len l)) / f_len l)%float.
+Definition f_stdev_prefix (l : list float) : float := PrimFloat.sqrt (f_variance_prefix l).
+(* get_variance_mean as it is now: `if values.is_empty() { return (0., 0.); }` first *)
+Definition f_variance (l : list float) : float := match l with [] => 0%float | _ => f_variance_prefix l end.
+Definition f_stdev (l : list float) : float := PrimFloat.sqrt (f_variance l).
+(* x is finite iff x - x == 0 (inf - inf and NaN - NaN are NaN) *)
+Definition f_finite (x : float) : bool := PrimFloat.eqb (x - x)%float 0%float.
+Definition f_is_zero (x : float) : bool := PrimFloat.eqb x 0%float.
+(* weights()[0..11] of on_init when solution.routes is empty, for given variance / stdev functions:
+   get_max_load_variance = variance [], get_max_load_mean = mean_iter [], get_full_load_ratio = 0 (total == 0 branch),
+   eight more get_mean_iter over per-route values = mean_iter [], get_customers_deviation = stdev [].
+   (weights()[12..14] = unassigned count, routes.len() = 0, total cost: not route statistics) *)
+Definition f_route_less_features (variance stdev : list float -> float) : list float :=
+  [variance []; f_mean_slice []; 0%float] ++ repeat (f_mean_slice []) 8 ++ [stdev []].
+Definition f_sample3 : list float := [1%float; 2%float; 4%float].
+Definition f_sample1 : list float := [3%float].
+(* entry point of the correspondence: are the twelve route-derived weights of a route-less solution all zero? *)
+Definition run_route_less : bool := forallb f_is_zero (f_route_less_features f_variance f_stdev).
